@@ -51,6 +51,17 @@ CLAIMS = {
         "denotes the kernel it names.",
         "DESIGN.md section 3, C05",
     ),
+    "C09": (
+        "semantic folding of the threshold predicate under supplied orderings; closure probing; atom inspection on partially evaluated operators",
+        "Decides: is_below_pair_threshold is the predicate Q2 (1-z)/z <= 4 m^2 (concrete and symbolic orderings below/at/above; every comparison "
+        "it makes is between those two normal forms); no NC heavy class bypasses the threshold decorator and, on partially evaluated FFNS/FONLL "
+        "runs folded below the hadronic threshold, no quadrature of a massive NC coefficient function remains in any operator entry (present "
+        "above); every regular/singular closure of every NC heavy class x order returns exactly 0 when the predicate holds for its own "
+        "integration variable; the CC heavy convolution point is x (1 + m^2/Q^2) in the class and in every massive CC quadrature atom of folded "
+        "operators; conv.convolution returns (0, 0) for points >= 1 - eps before touching kernel or basis. NOT decided: LeProHQ near threshold.",
+        "Trusted: CPython ast; yadsa partial evaluator; pcmodel class x order folding; eps_integration_border small and positive.",
+        "DESIGN.md section 3, C09",
+    ),
     "C10": (
         "end-to-end identity on partially evaluated operators against the published TMC formulas built by the checker",
         "Decides: for F2, FL, xF3, 2xg1 x TMC modes 1/2/3 x heavyness x NC/CC x schemes, the operator folded with TMC on equals for every order "
